@@ -75,6 +75,8 @@ pub enum Ev {
     HonestSigs(Ty),
     /// the current open message of this type reaches its expiry date
     Expire(Ty),
+    /// signer i sends a registration naming the round of the previous epoch (closed): must be refused
+    RegisterLate(usize),
     Restart,
     /// the operator restarts the node with the other protocol-parameter configuration
     Reconfigure,
@@ -414,14 +416,14 @@ pub async fn submit(w: &World, signer: usize, ty: Ty, variant: Variant) -> Optio
                 mithril_common::entities::ProtocolMessagePartKey::LatestBlockNumber,
                 "4242".to_string(),
             );
-            (w.sign(signer, *tp.epoch, &other)?, false)
+            (w.sign(signer, *tp.epoch, &other).await?, false)
         }
         Variant::WrongLabel => {
-            let mut s = w.sign(signer, *tp.epoch, &msg)?;
+            let mut s = w.sign(signer, *tp.epoch, &msg).await?;
             s.party_id = w.fixture.signers_fixture()[(signer + 1) % n].signer_with_stake.party_id.clone();
             (s, false)
         }
-        _ => (w.sign(signer, *tp.epoch, &msg)?, true),
+        _ => (w.sign(signer, *tp.epoch, &msg).await?, true),
     };
     let status = w.post_signature(&entity, &sig, &msg.to_message()).await;
     Some(Submission { status, entity, sig, honest })
@@ -451,6 +453,10 @@ pub async fn apply(w: &World, ev: &Ev, log: &mut Vec<String>) {
             for i in 0..w.fixture.signers_fixture().len() {
                 let _ = w.register(i).await;
             }
+        }
+        Ev::RegisterLate(i) => {
+            let r = w.register_late(*i).await;
+            log.push(format!("register-late({i})={}", if r.is_ok() { "ACCEPTED" } else { "refused" }));
         }
         Ev::Sig { signer, ty, variant } => {
             let s = submit(w, *signer, *ty, *variant).await;
@@ -507,6 +513,9 @@ pub async fn apply_mut(w: &mut World, ev: &Ev, log: &mut Vec<String>) {
         w.reconfigure().await;
     } else {
         apply(&*w, ev, log).await;
+    }
+    if w.restart_if_crashed().await {
+        log.push("the node panicked: restarted".into());
     }
 }
 
@@ -667,7 +676,30 @@ pub fn replay(scratch: &std::path::Path, history: &[Ev], nsigners: usize, closin
     replay_kind(scratch, history, nsigners, closing_rounds, crate::world::Kind::MsdCdb)
 }
 
+/// A panic of the node under test (or of the harness) during a replay must not take the whole
+/// exploration down: it becomes the outcome of that one history ("PANIC@<location>"), is counted,
+/// and the exploration goes on. C14-C16 do not forbid a crash as such - a crashed process is
+/// restarted, which is an event of the alphabet - so it is an observation, not a violation.
+pub fn panic_result(what: String) -> RunResult {
+    let loc = mc_core::last_panic_location();
+    crate::ctl::Ctl::uninstall();
+    RunResult {
+        canon: format!("PANIC@{loc}"),
+        violations: vec![],
+        nontrivial: false,
+        outcome: format!("PANIC@{loc}:{}", what.chars().take(60).collect::<String>()),
+        disabled: false,
+    }
+}
+
 pub fn replay_kind(scratch: &std::path::Path, history: &[Ev], nsigners: usize, closing_rounds: usize, kind: crate::world::Kind) -> RunResult {
+    match mc_core::catch(|| replay_kind_inner(scratch, history, nsigners, closing_rounds, kind)) {
+        Ok(r) => r,
+        Err(e) => panic_result(e),
+    }
+}
+
+fn replay_kind_inner(scratch: &std::path::Path, history: &[Ev], nsigners: usize, closing_rounds: usize, kind: crate::world::Kind) -> RunResult {
     let dir = fresh_dir(scratch);
     let rt = tokio::runtime::Builder::new_current_thread().enable_all().build().expect("tokio runtime");
     let hist_json = serde_json::to_value(history).unwrap();
@@ -707,7 +739,7 @@ pub fn replay_kind(scratch: &std::path::Path, history: &[Ev], nsigners: usize, c
             canon,
             violations,
             nontrivial: produced > 0,
-            outcome: format!("certificates={produced},state={state}"),
+            outcome: format!("certificates={produced},state={state}{}", if w.panics.get() > 0 { ",node-panicked" } else { "" }),
             disabled: false,
         }
     });
@@ -720,6 +752,19 @@ pub fn replay_kind(scratch: &std::path::Path, history: &[Ev], nsigners: usize, c
 /// reaching of hook point `point`, run the whole operation `other`, then let the parked one finish.
 /// Returns None when the point was not reached during that event.
 pub fn replay_interleaved(
+    scratch: &std::path::Path,
+    history: &[Ev],
+    point: &str,
+    occurrence: u32,
+    other: &Ev,
+) -> Option<RunResult> {
+    match mc_core::catch(|| replay_interleaved_inner(scratch, history, point, occurrence, other)) {
+        Ok(r) => r,
+        Err(e) => Some(panic_result(e)),
+    }
+}
+
+fn replay_interleaved_inner(
     scratch: &std::path::Path,
     history: &[Ev],
     point: &str,
@@ -785,6 +830,9 @@ pub fn replay_interleaved(
                     break;
                 }
             }
+            if w.restart_if_crashed().await {
+                log.push("the node panicked: restarted".into());
+            }
             let ctx = json!({"history": hist_json, "interleave": {"point": point, "occurrence": occurrence, "other": other}, "failing_step": i, "log": log});
             violations.extend(chk.check(&w, &ctx).await);
         }
@@ -807,6 +855,18 @@ pub fn replay_interleaved(
 
 /// (event index, point, occurrence) reached along a history, from a recording run
 pub fn record_points(scratch: &std::path::Path, history: &[Ev]) -> Vec<(usize, String, u32)> {
+    match mc_core::catch(|| record_points_inner(scratch, history)) {
+        Ok(r) => r,
+        Err(_) => {
+            // the node under test panicked on the recording run: no hook-point occurrences are
+            // known for this schedule (the histories explored by replay report the panic)
+            crate::ctl::Ctl::uninstall();
+            vec![]
+        }
+    }
+}
+
+fn record_points_inner(scratch: &std::path::Path, history: &[Ev]) -> Vec<(usize, String, u32)> {
     use crate::ctl::Ctl;
     let dir = fresh_dir(scratch);
     let rt = tokio::runtime::Builder::new_current_thread().enable_all().build().expect("tokio runtime");
